@@ -8,3 +8,5 @@
 
 #[path = "/verif/kani/external/steps.rs"]
 mod steps;
+#[path = "/verif/kani/external/xthreads.rs"]
+mod xthreads;
